@@ -43,6 +43,10 @@ CHECKS = {
    technique="Coq proof (finite sweep over the 16 state values lifted to all lists; induction on the member list and on the wait rounds) + differential runs of the real TxRxResponse summaries and into_safe_op against scripted AL behaviour under a virtual clock",
    text="Theorem c10_summaries: for EVERY list of reported 4-bit states the summaries say exactly what the devices reported (single state iff all equal and named; all_op iff non-empty and all OP; is_in_state(v) iff all report v). c10_transition_sound: for all groups, frame sizes, limits and ANY device answers, Ok implies the requested state was written to every member in group order and to nobody else, and then - before the timeout - a complete round of status checks (one per member, in order) had every answer naming the requested state. c10_members_only (also on failing paths), c10_refusal_is_error (working counter != 1 or error flag -> error), c10_no_room, c10_transition_ends (never a hang). Tied by 3000 (quick) / 40000 (thorough) cases: summaries on all lists up to length 3 and random longer ones, transitions of 0..64 members with storage sizes from 28 bytes (no room) to 1100, members accepting late, stalling, falling back, refusing or absent, with every frame and the result compared with the model, plus an independent Python oracle.",
    note="The timeout is counted in frames of fixed virtual duration (the harness advances the clock per frame). request_into_op is documented not to wait and is outside the statement. Known fixed: summaries computed from the OR of the states (4fc6860b)."),
+ "C18": dict(
+   technique="Coq proof (N arithmetic with lia/nia over division and modulo; induction over the group) + differential runs of the real configure_dc_sync and tx_rx_dc in debug and release builds against a wire recording every datagram",
+   text="Theorems c18_touches_only (on every path only the reference clock is read and only SubDevices that support DC and asked for SYNC are written), c18_configure_ok (success implies reference present, period/delay/SYNC1 periods within 32-bit ns, the captured configuration is the requested one and the datagrams are exactly: time read, then per DC device in order [sync off; start time; SYNC0 cycle; (SYNC1 cycle); flags 3|7]), c18_start_time (the multiple of the period in (time+delay-period, time+delay], fits 64 bits) and c18_start_time_overflow (error beyond 64 bits), c18_no_reference, c18_range_rejected (nothing written), c18_configure_total (no panic/hang for periods from 1 ns), c18_cycle (for EVERY 64-bit time, period >= 1 and period+shift < 2^64: offset = time mod period, wait = (period - offset) + shift, in both build modes). Tied by 3000 (quick) / 30000 debug+release (thorough) cases: groups of 1..8 devices of every support level and sync mode, boundary-heavy delays/periods/shifts/times incl. time+delay crossing 2^64, with every datagram, result and captured configuration compared with the model, plus an independent Python oracle phrased in the property's words.",
+   note="Writes go through WrappedWrite::send which ignores the response, so an unacknowledged register write is not noticed (modelled as such; the property does not speak of it). A period of 0 ns divides by zero (outside the quantified domain; modelled as a panic). sync0_shift is not range-checked and is stored modulo 2^64. 'Supports DC' is dc_support().any(), RefOnly included. Known fixed: start-time overflow (9f0f3c3a), SYNC1 period range (4883306c)."),
 }
 ORDER = [f"C{i:02d}" for i in range(1, 21)]
 
